@@ -510,6 +510,14 @@ func c11Outputs(c *core.Ctx) {
 		if withStderr {
 			producer += " " + errSrc
 		}
+		retried := idx%4 == 2
+		produceExtra := ""
+		if retried {
+			// the producer prints, fails, and is retried: the value is the LAST attempt's output
+			pg := filepath.Join(h.root, "produce-gate")
+			producer = "sh -c " + yq(fmt.Sprintf("%s; if test -e %s; then exit 0; else touch %s; exit 1; fi", producer, pg, pg))
+			produceExtra = "    retryPolicy:\n      limit: 1\n      intervalSec: 0\n"
+		}
 		probe := func(name string, exit int) string {
 			return fmt.Sprintf("%s probe %s %d", self, filepath.Join(h.root, name+".json"), exit)
 		}
@@ -518,7 +526,7 @@ func c11Outputs(c *core.Ctx) {
 		gate := filepath.Join(h.root, "gate")
 		last := fmt.Sprintf("sh -c %s", yq(fmt.Sprintf("%s probe %s 0; test -e %s", self, filepath.Join(h.root, "late.json"), gate)))
 		text := "handlerOn:\n  exit:\n    command: " + yq(probe("onexit", 0)) + "\n  failure:\n    command: " + yq(probe("onfailure", 0)) + "\n  success:\n    command: " + yq(probe("onsuccess", 0)) +
-			"\nsteps:\n  - name: produce\n    command: " + yq(producer) + "\n    output: CAPTURED\n" +
+			"\nsteps:\n  - name: produce\n    command: " + yq(producer) + "\n    output: CAPTURED\n" + produceExtra +
 			"  - name: next\n    command: " + yq(probe("next", 0)) + "\n    depends: [produce]\n" +
 			"  - name: middle\n    command: \"true\"\n    depends: [next]\n" +
 			"  - name: late\n    command: " + last + "\n    depends: [middle]\n"
@@ -541,6 +549,10 @@ func c11Outputs(c *core.Ctx) {
 		}
 		if withStderr {
 			sizeClass += "+stderr"
+		}
+		if retried {
+			sizeClass += "+retried-producer"
+			c.Count("retried_producers", 1)
 		}
 		c.Count("obligations", 1)
 		if to {
